@@ -257,8 +257,7 @@ class Gen:
         o = self.any_object()
         s = self.any_session()
         items = []
-        if self.r.random() < 0.6:
-            items.append('3=x:%s' % self.new_label())
+        items.append('3=x:%s' % self.new_label())      # copies are always relabelled: labels identify objects
         if self.r.random() < 0.4:
             items.append('1=b:%d' % self.r.randint(0, 1))
         if self.r.random() < 0.4:
@@ -292,12 +291,88 @@ class Gen:
         sizes = [self.r.choice([0, 1, 2, 3, 50]) for _ in range(self.r.randint(1, 4))] + [50]
         if self.r.random() < 0.15:
             sizes = sizes[:1]
-        for z in sizes:
-            if self.dead:
-                return
-            r = self.emit('find %s %d' % (s, z))
+        self.emit('findseq %s %s' % (s, ' '.join('%d' % z for z in sizes)))
         if self.r.random() < 0.9:
             self.emit('findfinal %s' % s)
+
+    def op_probe(self):
+        """probe every handle name ever bound (C11): sessions with sinfo, everything with objsize through a live session"""
+        n = len(self.m.names)
+        for k in range(n):
+            self.emit('sinfo h%d' % k)
+        live = None
+        for s in sorted(self.sessions):
+            q = self.emit('sinfo %s' % s)
+            if q.get('rv') == 0:
+                live = s
+                break
+        if live:
+            for k in range(n):
+                self.emit('objsize %s h%d' % (live, k))
+
+    def op_matrix(self):
+        """directed walk of the access matrix (C01): four object kinds created as user, then every
+        handle-taking call from one of the five session states, on old and freshly found handles"""
+        k = self.r.randrange(self.ntok)
+        if k not in self.user:
+            return
+        r = self.emit('open t%d rw' % k)
+        s = r.get('h')
+        if not s:
+            return
+        self.sessions[s] = (k, True)
+        self.emit('login %s 1 %s' % (s, self.user[k]))
+        made = []
+        for tok in (1, 0):
+            for priv in (1, 0):
+                lab = self.new_label()
+                q = self.emit('create %s 0=u:0 1=b:%d 2=b:%d 3=x:%s 0x11=x:%s' % (s, tok, priv, lab, bytes(self.r.randrange(256) for _ in range(5)).hex()))
+                if q.get('h'):
+                    made.append(q['h'])
+                    self.objects[q['h']] = {'tok': k, 'token': bool(tok), 'private': bool(priv), 'label': lab}
+        self.emit('logout %s' % s)
+        target = self.r.choice(['ro_public', 'rw_public', 'ro_user', 'rw_user', 'so', 'so'])
+        use = s
+        if target in ('ro_public', 'ro_user'):
+            q = self.emit('open t%d ro' % k)
+            if q.get('h'):
+                use = q['h']
+                self.sessions[use] = (k, False)
+        if target in ('ro_user', 'rw_user'):
+            self.emit('login %s 1 %s' % (s, self.user[k]))
+        if target == 'so':
+            q = self.emit('login %s 0 %s' % (s, self.so[k]))
+            if q.get('rv') != 0:
+                self.emit('closeall t%d' % k)
+                for x in [x for x, v in self.sessions.items() if v[0] == k]:
+                    self.sessions.pop(x)
+                q = self.emit('open t%d rw' % k)
+                use = s = q.get('h')
+                if not s:
+                    return
+                self.sessions[s] = (k, True)
+                self.emit('login %s 0 %s' % (s, self.so[k]))
+        self.emit('sinfo %s' % use)
+        self.emit('findinit %s' % use)
+        q = self.emit('findseq %s 50' % use)
+        self.emit('findfinal %s' % use)
+        names = list(made)
+        if q.get('objs') is not None:
+            names += ['h%d' % n for n in q['objs'] if 'h%d' % n not in names]
+        for n in names:
+            if self.dead:
+                return
+            self.emit('getattr %s %s 3:16 0x11:16 2:1' % (use, n))
+            self.emit('setattr %s %s 3=x:%s' % (use, n, self.new_label()))
+            self.emit('copy %s %s 3=x:%s' % (use, n, self.new_label()))
+            self.emit('%s %s 0x1081 %s' % (self.r.choice(['encinit', 'decinit', 'signinit', 'verifyinit']), use, n))
+            self.emit('objsize %s %s' % (use, n))
+        for n in names:
+            if self.dead:
+                return
+            if self.r.random() < 0.5:
+                self.emit('destroy %s %s' % (use, n))
+                self.objects.pop(n, None)
 
     def op_restart(self):
         if self.r.random() < 0.5:
@@ -314,8 +389,12 @@ class Gen:
     PROFILES = {
         'session': [('open', 22), ('close', 12), ('closeall', 4), ('login', 22), ('logout', 8), ('sinfo_all', 10), ('sinfo', 4),
                     ('initpin', 5), ('setpin', 6), ('inittoken', 5), ('restart', 2)],
-        'objects': [('open', 10), ('close', 5), ('closeall', 2), ('login', 12), ('logout', 5), ('create', 22), ('destroy', 7),
+        'objects': [('matrix', 6), ('open', 10), ('close', 5), ('closeall', 2), ('login', 12), ('logout', 5), ('create', 22), ('destroy', 7),
                     ('getattr', 12), ('setattr', 7), ('copy', 7), ('find', 10), ('sinfo', 2), ('restart', 2), ('inittoken', 1)],
+        'handles': [('open', 14), ('close', 10), ('closeall', 3), ('login', 10), ('logout', 6), ('create', 20), ('destroy', 8),
+                    ('copy', 5), ('find', 8), ('probe', 12), ('restart', 1)],
+        'find': [('open', 8), ('close', 3), ('login', 10), ('logout', 4), ('create', 30), ('destroy', 6), ('find', 30), ('setattr', 4),
+                 ('copy', 4), ('restart', 2), ('closeall', 1)],
         'pins': [('open', 12), ('close', 5), ('login', 30), ('logout', 10), ('initpin', 10), ('setpin', 15), ('inittoken', 6), ('restart', 8),
                  ('sinfo_all', 4)],
     }
